@@ -158,7 +158,7 @@ def _fn_big(case):
     env = dict(os.environ, PYTHONPATH="%s:%s" % (REPO, HERE))
     try:
         p = subprocess.run([sys.executable, "-m", "vf.bign"], input=json.dumps(dict(ns=case["ns"])).encode(), stdout=subprocess.PIPE,
-                           stderr=subprocess.PIPE, env=env, timeout=60)
+                           stderr=subprocess.PIPE, env=env, timeout=25)
     except subprocess.TimeoutExpired:
         return Result(skipped="large n: time limit reached (inconclusive)")
     if p.returncode != 0:
